@@ -16,7 +16,7 @@ def lbLookup (ss : List (String × St)) (sid : String) : Option St :=
 def lbSet (ss : List (String × St)) (sid : String) (s : St) : List (String × St) :=
   (sid, s) :: ss.filter (fun p => p.1 != sid)
 
-def showBoard (b : List Entry) : String :=
+def lbShowBoard (b : List Entry) : String :=
   ",".intercalate (b.map (fun e => s!"{e.addr}:{e.vol}"))
 
 def lbDigest (s : St) : String :=
@@ -25,16 +25,16 @@ def lbDigest (s : St) : String :=
     | some p => some s!"{t}:{p.vol}:{p.last}:{p.merged}"
     | none => none)
   let trig := match s.comp.triggerer with | some t => toString t | none => "_"
-  s!"end={s.comp.end_} trig={trig} board=[{showBoard s.comp.board}] parts=[{",".intercalate parts}]"
+  s!"end={s.comp.end_} trig={trig} board=[{lbShowBoard s.comp.board}] parts=[{",".intercalate parts}]"
 
-def fitsI64 (z : Int) : Bool := decide (I64MIN ≤ z) && decide (z ≤ I64MAX)
-def fitsU128 (n : Nat) : Bool := decide (n ≤ U128MAX)
+def lbFitsI64 (z : Int) : Bool := decide (I64MIN ≤ z) && decide (z ≤ I64MAX)
+def lbFitsU128 (n : Nat) : Bool := decide (n ≤ U128MAX)
 
-def parseBoard : List String → Option (List Entry)
+def lbParseBoard : List String → Option (List Entry)
   | [] => some []
   | a :: v :: rest =>
-    match pNat a, pNat v, parseBoard rest with
-    | some a, some v, some r => if a < lbNT && fitsU128 v then some (⟨a, v⟩ :: r) else none
+    match pNat a, pNat v, lbParseBoard rest with
+    | some a, some v, some r => if a < lbNT && lbFitsU128 v then some (⟨a, v⟩ :: r) else none
     | _, _, _ => none
   | _ => none
 
@@ -43,7 +43,7 @@ def lbEngine (ss : List (String × St)) (args : List String) : List (String × S
   | ["new", sid, start, end_, thr, ext, cap, oi, win] =>
     match allInt [start, end_, ext, cap, win], pNat thr, pBool oi with
     | some [start, end_, ext, cap, win], some thr, some oi =>
-      if [start, end_, ext, cap, win].all fitsI64 && fitsU128 thr then
+      if [start, end_, ext, cap, win].all lbFitsI64 && lbFitsU128 thr then
         let s := init start end_ thr ext cap oi win
         (lbSet ss sid s, s!"ok | {lbDigest s}")
       else (ss, "bad-op")
@@ -51,7 +51,7 @@ def lbEngine (ss : List (String × St)) (args : List String) : List (String × S
   | ["create", sid, t, now] =>
     match lbLookup ss sid, pNat t, pInt now with
     | some s, some t, some now =>
-      if t < lbNT && fitsI64 now then
+      if t < lbNT && lbFitsI64 now then
         let s' := create s t now
         (lbSet ss sid s', s!"ok | {lbDigest s'}")
       else (ss, "bad-op")
@@ -59,8 +59,8 @@ def lbEngine (ss : List (String × St)) (args : List String) : List (String × S
   | ["trade", sid, t, now, kind, ver, extra, succ, ev, evu, before, after] =>
     match lbLookup ss sid, allNat [t, kind, ver, extra, evu, before, after], pInt now, pBool succ, pBool ev with
     | some s, some [t, kind, ver, extra, evu, before, after], some now, some succ, some ev =>
-      if t < lbNT && evu < lbNT && fitsI64 now && kind < 256 && ver < 256 && extra < 256
-          && fitsU128 before && fitsU128 after then
+      if t < lbNT && evu < lbNT && lbFitsI64 now && kind < 256 && ver < 256 && extra < 256
+          && lbFitsU128 before && lbFitsU128 after then
         let evo := if ev then some (evu, before, after) else none
         match onExecuted s t now kind ver extra succ evo with
         | some s' => (lbSet ss sid s', s!"ok | {lbDigest s'}")
@@ -68,14 +68,14 @@ def lbEngine (ss : List (String × St)) (args : List String) : List (String × S
       else (ss, "bad-op")
     | _, _, _, _, _ => (ss, "bad-op")
   | "upd" :: _sid :: t :: v :: rest =>
-    match pNat t, pNat v, parseBoard rest with
+    match pNat t, pNat v, lbParseBoard rest with
     | some t, some v, some b =>
-      if t < lbNT && fitsU128 v then (ss, s!"ok [{showBoard (updateBoard b t v)}]") else (ss, "bad-op")
+      if t < lbNT && lbFitsU128 v then (ss, s!"ok [{lbShowBoard (updateBoard b t v)}]") else (ss, "bad-op")
     | _, _, _ => (ss, "bad-op")
   | ["ext", _sid, old, ext, cap, now] =>
     match allInt [old, ext, cap, now] with
     | some [old, ext, cap, now] =>
-      if [old, ext, cap, now].all fitsI64 then (ss, s!"ok {extendEnd old ext cap now}") else (ss, "bad-op")
+      if [old, ext, cap, now].all lbFitsI64 then (ss, s!"ok {extendEnd old ext cap now}") else (ss, "bad-op")
     | _ => (ss, "bad-op")
   | _ => (ss, "bad-op")
 
